@@ -130,6 +130,9 @@ const HELPERS: &[(&str, &str)] = &[
     ("make-pctr", "(define (make-pctr n) (define n (+ n 10)) (lambda () (set! n (+ n 1)) n))"),
     // a closure whose frame stays alive and that calls whatever the global `hook` holds NOW
     ("make-caller", "(define (make-caller k) (lambda () (+ k (hook))))"),
+    // a tail call whose first operand is the bare variable and whose second closes over it
+    ("make-vc", "(define (make-vc v) (cons v (lambda () (set! v (+ v 1)) v)))"),
+    ("make-vv", "(define (make-vv v) (vector v (lambda () (set! v (+ v 2)) v) v))"),
     ("make-bctr", "(define (make-bctr k) (begin (define n k) (lambda () (set! n (+ n 1)) n)))"),
     (
         "make-cctr",
@@ -342,7 +345,19 @@ impl Gen {
                 } else {
                     None
                 }
-                .unwrap_or_else(|| self.fresh("g"));
+                .unwrap_or_else(|| {
+                    // sometimes a global that carries a name the helper procedures use for their
+                    // parameters and internal definitions: those stay bindings of their own
+                    let pool: Vec<&str> = ["n", "k", "total", "late", "step", "get", "first", "inner"]
+                        .into_iter()
+                        .filter(|p| !self.roles.contains_key(*p))
+                        .collect();
+                    if !pool.is_empty() && self.rng.chance(1, 4) {
+                        self.rng.pick(&pool).to_string()
+                    } else {
+                        self.fresh("g")
+                    }
+                });
                 let (e, roots) = self.int_expr(2);
                 self.roles.insert(name.clone(), Role::Int);
                 let mut r = roots;
@@ -1181,13 +1196,17 @@ impl Gen {
                 }
                 // ... or by the bodies of the bundled derived forms (begin, cond, when, or, and)
                 let which = *self.rng.pick(&[
-                    "make-late", "make-lctr", "make-l2", "make-l3", "make-pctr", "make-bctr", "make-cctr", "make-wctr", "make-octr", "make-actr",
+                    "make-late", "make-lctr", "make-l2", "make-l3", "make-pctr", "make-vc", "make-vv", "make-bctr", "make-cctr", "make-wctr", "make-octr", "make-actr",
                 ]);
                 self.need(which);
                 let c = self.fresh("c");
                 self.roles.insert(c.clone(), Role::Counter);
                 let sx = if which == "make-late" {
                     list(vec![sym(which)])
+                } else if which == "make-vc" {
+                    call("cdr", vec![call(which, vec![int(self.small_lit())])])
+                } else if which == "make-vv" {
+                    call("vector-ref", vec![call(which, vec![int(self.small_lit())]), int(1)])
                 } else {
                     let k = self.small_lit().abs();
                     call(which, vec![int(k)])
